@@ -28,7 +28,9 @@ Record fmt := {
   f_kinds : list kind;        (* one per dataclass field *)
   f_layout : layout;
   f_concat : bool;            (* the buffer class has a `concatenate` method (DelimitedBuffer: yes, OneLineBuffer: no) *)
-  f_nowrite : list nat        (* fields whose presence in _set_values makes lazy get_buffer raise *)
+  f_nowrite : list nat;       (* fields whose presence in _set_values makes lazy get_buffer raise *)
+  f_sid : list nat            (* SequenceID fields: parsing one from a buffer with ZERO records raises
+                                 (string_array of a 0x0 matrix); [] once notes/C05.fix-2.diff is applied *)
 }.
 Definition nfields (F : fmt) : nat := length (f_kinds F).
 Definition kind_of (F : fmt) (f : nat) : kind := nth f (f_kinds F) KStr.
@@ -226,14 +228,18 @@ Definition l_col (F : fmt) (l : lazy) (f : nat) : list value :=
             | Some c => c
             | None => parse_col F f (l_buf l) end
   end.
-(* __getattr__: _set_values first, then the cache, else parse and cache *)
-Definition l_get (F : fmt) (f : nat) (l : lazy) : list value * lazy :=
+(* parsing field f from the buffer raises: a SequenceID field of an empty buffer *)
+Definition sid_fail (F : fmt) (l : lazy) (f : nat) : bool :=
+  match l_buf l with [] => existsb (Nat.eqb f) (f_sid F) | _ => false end.
+(* __getattr__: _set_values first, then the cache, else parse and cache; None = the parser raised *)
+Definition l_get (F : fmt) (f : nat) (l : lazy) : option (list value * lazy) :=
   match lookup f (l_set l) with
-  | Some c => (c, l)
+  | Some c => Some (c, l)
   | None => match lookup f (l_comp l) with
-            | Some c => (c, l)
-            | None => let c := parse_col F f (l_buf l) in
-                      (c, {| l_buf := l_buf l; l_set := l_set l; l_comp := l_comp l ++ [(f, c)] |}) end
+            | Some c => Some (c, l)
+            | None => if sid_fail F l f then None else
+                      let c := parse_col F f (l_buf l) in
+                      Some (c, {| l_buf := l_buf l; l_set := l_set l; l_comp := l_comp l ++ [(f, c)] |}) end
   end.
 (* __getitem__ (non-scalar): every store is indexed with the same idx *)
 Definition l_index (sel : list nat) (l : lazy) : lazy :=
@@ -243,9 +249,15 @@ Definition l_index (sel : list nat) (l : lazy) : lazy :=
 (* __replace__: new _set_values, the cache is dropped *)
 Definition l_replace (f : nat) (vals : list value) (l : lazy) : lazy :=
   {| l_buf := l_buf l; l_set := update f vals (l_set l); l_comp := [] |}.
-(* get_data_object: getattr on every field, in order (fills the cache) *)
-Fixpoint l_fill (F : fmt) (fs : list nat) (l : lazy) : lazy :=
-  match fs with [] => l | f :: r => l_fill F r (snd (l_get F f l)) end.
+(* get_data_object: getattr on every field, in order (fills the cache); false = one of them raised
+   (the fields before it stay cached) *)
+Fixpoint l_fill (F : fmt) (fs : list nat) (l : lazy) : bool * lazy :=
+  match fs with
+  | [] => (true, l)
+  | f :: r => match l_get F f l with
+              | Some (_, l') => l_fill F r l'
+              | None => (false, l) end
+  end.
 Definition all_fields (F : fmt) : list nat := seq 0 (nfields F).
 Definition l_rows (F : fmt) (l : lazy) : rows :=
   rows_of_cols dv (length (l_buf l)) (map (l_col F l) (all_fields F)).
@@ -258,13 +270,15 @@ Definition text_col (F : fmt) (l : lazy) (f : nat) : list (list Z) :=
   | None => map (field f) (l_buf l)
   end.
 Definition l_write (F : fmt) (hdr : list Z) (l : lazy) : option (list Z) :=
+  match l_buf l with [] => Some hdr | _ =>          (* NpBufferedWriter.write: `if len(data) == 0: return` after the header *)
   if existsb (fun f => existsb (Nat.eqb f) (f_nowrite F)) (keys (l_set l)) then None
   else Some (hdr ++
     match l_set l with
     | [] => concat (map r_raw (l_buf l))
     | _ => concat (map (render (f_layout F))
                        (rows_of_cols [] (length (l_buf l)) (map (text_col F l) (all_fields F))))
-    end).
+    end)
+  end.
 
 (* np.concatenate over lazy operands, buffer class with `concatenate`.
    PINNED = the code at /repo HEAD: the key sets of _set_values and _computed_values come from the first operand
@@ -293,12 +307,18 @@ Definition l_concat_pinned (F : fmt) (ls : list lazy) : option lazy :=
   end.
 (* REPAIRED (notes/C05.fix-1.diff): a field replaced in ANY operand is materialised for all of them;
    the cache is kept only for fields cached in every operand. *)
+(* a column that has to be parsed for the merge and whose parser raises (SequenceID of an empty buffer) *)
+Definition concat_parse_fails (F : fmt) (ls : list lazy) : bool :=
+  existsb (fun f => existsb (fun l => has f (l_set l)) ls
+                    && existsb (fun l => negb (has f (l_set l)) && negb (has f (l_comp l)) && sid_fail F l f) ls)
+          (all_fields F).
 Definition l_concat (F : fmt) (ls : list lazy) : option lazy :=
   match ls with
   | [] => None
   | first :: _ =>
+      if concat_parse_fails F ls then None else
       let sk := filter (fun f => existsb (fun l => has f (l_set l)) ls) (all_fields F) in
-      let ck := filter (fun f => negb (existsb (Nat.eqb f) sk) && forallb (fun l => has f (l_comp l)) ls)
+      let ck := filter (fun f => negb (existsb (fun l => has f (l_set l)) ls) && forallb (fun l => has f (l_comp l)) ls)
                        (keys (l_comp first)) in
       Some {| l_buf := concat (map l_buf ls);
               l_set := map (fun f => (f, concat (map (fun l => l_col F l f) ls))) sk;
@@ -325,7 +345,8 @@ Definition t_concat (cc : fmt -> list lazy -> option lazy) (F : fmt) (ts : list 
   | _ =>
     match all_lazy ts with
     | Some ls => if f_concat F then option_map TLazy (cc F ls)
-                 else Some (TEager (concat (map (l_rows F) ls)))
+                 else if forallb (fun l => fst (l_fill F (all_fields F) l)) ls
+                      then Some (TEager (concat (map (l_rows F) ls))) else None
     | None => match all_eager ts with
               | Some rs => Some (TEager (concat rs))
               | None => None end
@@ -341,7 +362,9 @@ Definition m_step (cc : fmt -> list lazy -> option lazy) (F : fmt) (hdr : list Z
   | OLen r => match nth_error regs r with Some t => (regs, XLen (Z.of_nat (t_len t))) | None => (regs, XErr) end
   | OGet r f =>
       match nth_error regs r with
-      | Some (TLazy l) => let '(c, l') := l_get F f l in (set_reg r (TLazy l') regs, XCol c)
+      | Some (TLazy l) => match l_get F f l with
+                          | Some (c, l') => (set_reg r (TLazy l') regs, XCol c)
+                          | None => (regs, XErr) end
       | Some (TEager t) => (regs, XCol (s_get f t))
       | None => (regs, XErr) end
   | OIndex r ix =>
@@ -371,7 +394,8 @@ Definition m_step (cc : fmt -> list lazy -> option lazy) (F : fmt) (hdr : list Z
       | None => (regs, XErr) end
   | OTolist r =>
       match nth_error regs r with
-      | Some (TLazy l) => (set_reg r (TLazy (l_fill F (all_fields F) l)) regs, XRows (l_rows F l))
+      | Some (TLazy l) => let '(ok, l') := l_fill F (all_fields F) l in
+                          (set_reg r (TLazy l') regs, if ok then XRows (l_rows F l) else XErr)
       | Some (TEager t) => (regs, XRows t)
       | None => (regs, XErr) end
   | OWrite r =>
@@ -405,16 +429,25 @@ Definition m_guard (F : fmt) (regs : list table) (o : op) : bool :=
   | OCat r srcs =>
       match get_regs regs srcs with
       | Some ts => match all_lazy ts with
-                   | Some ls => negb (f_concat F) || cat_guard ls
+                   | Some ls => if f_concat F then cat_guard ls
+                                else forallb (fun l => fst (l_fill F (all_fields F) l)) ls
                    | None => match all_eager ts with Some _ => true | None => false end end
       | None => true end
   | ORep r f vals =>
       match nth_error regs r with
-      | Some t => (f <? nfields F)%nat && Nat.eqb (length vals) (t_len t)
+      | Some t => Nat.eqb (length vals) (t_len t)
       | None => true end
   | OWrite r =>
       match nth_error regs r with
-      | Some (TLazy l) => negb (existsb (fun f => existsb (Nat.eqb f) (f_nowrite F)) (keys (l_set l)))
+      | Some (TLazy l) => match l_write F [] l with Some _ => true | None => false end
+      | _ => true end
+  | OGet r f =>
+      match nth_error regs r with
+      | Some (TLazy l) => (f <? nfields F)%nat && match l_get F f l with Some _ => true | None => false end
+      | _ => true end
+  | OTolist r =>
+      match nth_error regs r with
+      | Some (TLazy l) => fst (l_fill F (all_fields F) l)
       | _ => true end
   | _ => true
   end.
@@ -430,7 +463,8 @@ Definition m_guard_fixed (F : fmt) (regs : list table) (o : op) : bool :=
   | OCat r srcs =>
       match get_regs regs srcs with
       | Some ts => match all_lazy ts with
-                   | Some _ => true
+                   | Some ls => if f_concat F then negb (concat_parse_fails F ls)
+                                else forallb (fun l => fst (l_fill F (all_fields F) l)) ls
                    | None => match all_eager ts with Some _ => true | None => false end end
       | None => true end
   | _ => m_guard F regs o
